@@ -67,4 +67,17 @@ UNIT = {
         {'rule': 'R4', 'find': 'unimplemented!()', 'replace': 'bail!("Unimplemented")'},
      ]},
  },
+ # BOUNDED native stand-in (vlib/native.py): the real crate, public API only. Needed because Verus is modular: a change that routes
+ # resolve_ref through a NEW helper method (no contract) leaves the Verus part UNDECIDED (NOTES.md "C18-r2-1"); this decides it on a
+ # small exhaustive universe. Reported under bounded_checks with its bound, never counted as proved.
+ 'native': {'tests': [
+    {'name': 'refs_to_free_gap_beyond_read_as_null', 'code': 'native_refs_bounded.rs', 'place': 'pdf/tests/verif_resolve_bounded.rs',
+     'fn': 'Storage::resolve_ref', 'props': ['C18', 'C02'], 'tier': 'quick',
+     'bound': 'classic xref tables over object numbers 0..=8: {0 free, 1, 2, 5 in use} [+ 3 free, generation 1] x /Size in {6, 9} '
+              '(3, 4 gaps = XRef::Invalid; 6..8 beyond the table or gaps) x {strict, tolerant} x {uncached, cached}; '
+              'every reference n g R with n in 0..=8, g in {0, 1}: 16 documents x 18 references x 2 readers',
+     'contract': 'no panic; in-use numbers: resolve is Ok and Option::<Dictionary> reads Some; free / gap / beyond-the-table numbers: '
+                 'resolve is Err(e) with e.is_missing_object() (FreeObject | NullRef | UnspecifiedXRefEntry: resolve_ref/free_is_free_object_error, '
+                 'undefined_is_null_ref_error, beyond_table_is_missing) and the Option reader gives Ok(None) (null, ISO 32000-1 7.3.10)'},
+ ]},
 }
